@@ -339,6 +339,16 @@ class CFG:
             return []
         if isinstance(st, ast.Try):
             return self._try(st, ends)
+        if isinstance(st, ast.With) and len(st.items) == 1 and self._is_suppress(st.items[0].context_expr):
+            # `with contextlib.suppress(A, B): body`  ==  try: body / except (A, B): pass
+            call = st.items[0].context_expr
+            typ: ast.expr = call.args[0] if len(call.args) == 1 else ast.Tuple(elts=list(call.args), ctx=ast.Load())
+            handler = ast.ExceptHandler(type=typ, name=None, body=[ast.Pass()])
+            synth = ast.Try(body=st.body, handlers=[handler], orelse=[], finalbody=[])
+            for n in (handler, synth, typ):
+                ast.copy_location(n, st)
+            ast.fix_missing_locations(synth)
+            return self._try(synth, ends)
         if isinstance(st, (ast.With, ast.AsyncWith)):
             for it in st.items:
                 ends = self._expr(it.context_expr, ends)
@@ -365,6 +375,12 @@ class CFG:
         if isinstance(st, (ast.Pass, ast.Import, ast.ImportFrom, ast.Global, ast.Nonlocal, ast.Delete)):
             return ends
         raise AnalysisError(f"{self.func.where(st)}: statement kind {type(st).__name__} is not modelled")
+
+    def _is_suppress(self, e: ast.expr) -> bool:
+        if not isinstance(e, ast.Call) or not e.args or e.keywords:
+            return False
+        t = self.prog.type_of(e.func, self.func)
+        return any(a[0] == "ext" and a[1] in ("contextlib.suppress",) for a in t)
 
     def _target_events(self, t: ast.expr, ends: list[End]) -> list[End]:
         if isinstance(t, (ast.Attribute, ast.Subscript)):
